@@ -93,12 +93,11 @@ impl<'c, 'view: 'c> NoConstantConditionVisitor<'c, 'view> {
       Expr::Array(arr) => match parent_node {
         Some(Expr::Bin(bin)) => {
           if bin.op == BinaryOp::Add {
+            // A hole (`[,]`) has no expression: it is as constant as a literal.
             arr.elems.iter().all(|element| {
-              Self::is_constant(
-                &element.as_ref().unwrap().expr,
-                parent_node,
-                false,
-              )
+              element.as_ref().is_none_or(|element| {
+                Self::is_constant(&element.expr, parent_node, false)
+              })
             })
           } else {
             true
